@@ -15,14 +15,16 @@
   all-NaN batch (`*_total` says when that cannot happen); `multistartOptimize = none` models the
   `RuntimeError` of the `for … else`.
 
-  NOT theorems (sampled tests in harness/c07.py, labelled as such in the evidence):
-    "a small Adam step does not decrease a smooth objective", "a constrained SLSQP run started
-    inside the domain ends inside it".
+  "A small Adam step does not decrease a smooth objective" is proved for the FIRST step of the coded moment
+  arithmetic (`adam_first_step_*` at the end of this file, model `Model/C07Adam.lean`, executed on Float
+  against recorded steps); later steps are a sampled test.  NOT a theorem: "a constrained SLSQP run started
+  inside the domain ends inside it" (third-party; sampled).
 -/
 import Model.C07
 import Proofs.C07
 import Proofs.C07Vec
 import Proofs.C07MS
+import Proofs.C07Adam
 
 namespace C07
 universe u v w
@@ -653,5 +655,35 @@ example : (multistartOptimize 1 1 0 [run 1 11 .nan false true, run 2 4 (.fin 7) 
     (fun r => (r.point, r.runs.length)) = some (some 1, 2) := by decide
 
 end Examples
+
+
+/-! ### Adam: the first step of the coded moment arithmetic ascends -/
+
+/-- With zero initial moments the bias-corrected first displacement of a coordinate is `lr·g/(|g|+ε)`,
+    whatever β₁, β₂ ∈ (0,1) are (`g` = the acquisition function's gradient in that coordinate). -/
+theorem adam_first_step_closed_form (lr β1 β2 eps g : ℝ) (h1 : β1 ≠ 1) (h2 : β2 ≠ 1) :
+    C07Adam.update lr β1 β2 eps 1 (C07Adam.stepMoments β1 β2 { m := 0, v := 0 } g) = lr * g / (|g| + eps) :=
+  C07Adam.update_first lr β1 β2 eps g h1 h2
+
+/-- it never moves a coordinate against the gradient and never farther than the learning rate -/
+theorem adam_first_step_direction (lr eps g : ℝ) (hlr : 0 ≤ lr) (heps : 0 ≤ eps) :
+    0 ≤ C07Adam.firstStep lr eps g * g ∧ |C07Adam.firstStep lr eps g| ≤ lr :=
+  ⟨C07Adam.firstStep_mul_grad_nonneg lr eps g hlr heps, C07Adam.abs_firstStep_le lr eps g hlr heps⟩
+
+/-- "Small Adam steps do not decrease a smooth objective", first step: if `f` has the quadratic lower bound
+    `f(x+s) ≥ f(x) + ⟨g,s⟩ − (L/2)|s|²` at `x` (true for every L-smooth `f` with gradient `g` at `x`) and the
+    learning rate is small in the sense `(L/2)·lr ≤ |gᵢ| + ε` for every coordinate, then the point reached by
+    the first Adam step is at least as good as `x`.  Holds for every dimension. -/
+theorem adam_first_step_ascent (f : List ℝ → ℝ) (x g : List ℝ) (lr eps L : ℝ) (hlr : 0 ≤ lr) (heps : 0 ≤ eps)
+    (hsmooth : ∀ s : List ℝ, f x + C07Adam.ldot g s - L / 2 * C07Adam.ldot s s ≤ f (C07Adam.ladd x s))
+    (hsmall : ∀ gi ∈ g, L / 2 * lr ≤ |gi| + eps) :
+    f x ≤ f (C07Adam.ladd x (g.map (C07Adam.firstStep lr eps))) := by
+  have h := hsmooth (g.map (C07Adam.firstStep lr eps))
+  have hg := C07Adam.gain_sum lr eps L g hlr heps hsmall
+  linarith
+
+example : (∀ gi ∈ [(3 : ℝ), -1/2], (4 : ℝ) / 2 * (1 / 10) ≤ |gi| + 0) := by
+  intro gi h; simp only [List.mem_cons, List.mem_nil_iff, or_false] at h
+  rcases h with rfl | rfl <;> norm_num [abs_of_neg]
 
 end C07
